@@ -12,9 +12,13 @@ EXPLANATION = (
     "each plugin's ranking key reads the accessor its documentation names (io_cost_rate; pg_scan_rate "
     "with the '> 0' filter; swap_usage with the '> threshold' filter and the swap excess when biased; "
     "the mean of sec_10 and sec_60 of the configured resource; the (size-phase usage, growth-phase "
-    "ratio, usage) tuple with the documented eligibility tests).  The ranking outcomes themselves "
+    "ratio, usage) tuple with the documented eligibility tests); ceil/floor/round in the ranking scope "
+    "(the growing_size_percentile cut-off index) are applied only to an exactly computed integer or "
+    "to one correctly rounded quotient of exact integers (abstract domain INT/QUOT/INEXACT), so the "
+    "index equals the real-number formula for every percentile and sibling count.  The ranking outcomes themselves "
     "(three-phase policy, means, rates on concrete numbers) are numeric and not decided.")
 RULE_SUMMARY = "E-TYPE narrowing scan over the ranking scope, parser/destination agreement, metric table by expression shape"
+# (exactness of the percentile cut-off: see the discretised-fraction rule below)
 NOT_DECIDED = ["the three-phase policy and all ranking outcomes on concrete statistics (numeric)",
                "tie handling and rounding of rates and moving averages"]
 ASSUMPTIONS = ["accessor names (io_cost_rate, pg_scan_rate, swap_usage, ...) denote the documented statistics (C15)"]
@@ -242,6 +246,33 @@ def run(ctx):
         init, v = local_init(f, "size_threshold_in_bytes")
         ctx.check(v is not None and v.get("tw") == "i64" and "size_threshold_" in f.text(init) and "/ 100" in f.text(init), "metric:kmg:size-threshold", "value-shape", f.loc(),
                   "size threshold = siblings' total * size_threshold%% in 64 bits", "size threshold is " + (f.text(init) if v else "?"))
+    # discretised fractions (percentile cut-off): ceil/floor/round only of exactly representable values
+    from ..misc import exactness
+    n_disc = 0
+    for f in fns:
+        for i in f.calls("ceil", "floor", "round", "lround", "llround", "trunc", "std::ceil", "std::floor", "std::round"):
+            if f.nodes[i].get("cname") not in ("ceil", "floor", "round", "lround", "llround", "trunc") or not f.nodes[i].get("args"):
+                continue
+            n_disc += 1
+            e = exactness(f, f.nodes[i]["args"][0])
+            ctx.check(e in ("INT", "QUOT"), "discretised-fraction-exact:%s@%s" % (short(f), f.nodes[i]["cname"]), "E-TYPE exactness domain (INT/QUOT/INEXACT)", f.loc(i),
+                      "%s() is applied to one correctly rounded quotient of exact integers: the cut-off index equals the real-number formula" % f.nodes[i]["cname"],
+                      "%s() is applied to an inexactly computed value (%s): a rounding error of one ulp moves the cut-off by a whole sibling for some "
+                      "(percentile, sibling count) pairs" % (f.nodes[i]["cname"], f.text(f.nodes[i]["args"][0])[:120]))
+    # the cut-off index itself: either one of the discretised fractions above or pure integer arithmetic
+    for f in fns:
+        if f.pq != "Oomd::KillMemoryGrowth::get_ranking_fn":
+            continue
+        init, v = local_init(f, "nth")
+        if v is not None and init is not None and init >= 0:
+            has_disc = any(f.nodes[x]["k"] == "call" and f.nodes[x].get("cname") in ("ceil", "floor", "round", "lround", "llround", "trunc") for x in f.walk(init))
+            if not has_disc:
+                n_disc += 1
+                e = exactness(f, init)
+                ctx.check(e == "INT", "discretised-fraction-exact:%s@nth" % short(f), "E-TYPE exactness domain (INT/QUOT/INEXACT)", f.loc(init),
+                          "the cut-off index is computed in integer arithmetic", "the cut-off index is a truncated inexact floating value (%s)" % f.text(init)[:120])
+    ctx.counters["discretised_fractions"] = n_disc
+    ctx.floor("discretised_fractions", 1, "ceil/floor sites or integer cut-off in the ranking scope (growing_size_percentile cut-off)")
     # min_growth_ratio_ destination is floating
     kc = P.classes.get("Oomd::KillMemoryGrowth<Oomd::BaseKillPlugin>") or next((c for q, c in P.classes.items() if q.startswith("Oomd::KillMemoryGrowth")), None)
     if kc:
